@@ -360,16 +360,24 @@ class C20(Property):
             return False, "probe run failed: %s" % out[-1500:]
         self.fixed = {}
         for (fid, _), o in zip(probes.items(), res):
-            self.fixed[fid] = (o["pout"] == "ok" and o["fout"] == "ok" and o["idem"] and o["ast"] == o["fast"])
+            self.fixed[fid] = (o["pout"] == "ok" and o["fout"] == "ok" and o["idem"] and c20_norm(o["ast"]) == o["fast"])
         for (fid, _), mo in zip(crash.items(), res[-1]["muts"]):
             self.fixed[fid] = mo in ("ok", "err")
         ctx.notes.append("known-defect probes (True = not present in this tree): %s" % json.dumps(self.fixed, sort_keys=True))
         return True, ""
 
     def _on(self, fid):
-        """generate the shape of finding fid? yes when the tree no longer has the defect, or
-        when the finding is registered as known (then it is reported as KNOWN-FINDING)."""
-        return self.fixed.get(fid, False) or fid in vlib.known_ids(self.id)
+        """generate the shape of finding fid? yes when the tree no longer has the defect, when the
+        finding is registered as known (then it is reported as KNOWN-FINDING) or as fixed, or
+        when forced with C20_FORCE=id,id (self-test)."""
+        if self.fixed.get(fid, False) or fid in vlib.known_ids(self.id):
+            return True
+        # a `fixed` entry keeps the shape in the stream for good: re-introducing the defect is
+        # then a VIOLATION, not a silently skipped shape
+        for e in vlib.load_known():
+            if e.get("property") == self.id and e.get("kind") == "fixed" and e.get("id") == fid:
+                return True
+        return fid in os.environ.get("C20_FORCE", "").split(",")
 
     # ---- cases ------------------------------------------------------------------
     def corpus(self):
